@@ -1,8 +1,18 @@
 /-
   C01 — Round trip preserves the molecule's constitution.
 
-  PARTIAL (stage 1 of the staging in DESIGN.md 4.1).  Proved here, for EVERY adjacency list (no
-  well-formedness needed) and every accepted string:
+  PARTIAL (stages 1 and 2 of the staging in DESIGN.md 4.1).
+
+  Stage 2, `roundtrip_forest`: for EVERY well-formed adjacency list on which the traversal meets no ring
+  closure (every forest: any size, any atom numbering, any per-atom bond order, any number of components,
+  all atom kinds, all eight bond kinds) the complete round trip walk → write → read → build yields a graph
+  isomorphic to the original along the visit order (`Spec.Iso`).  The traversal is the recursive
+  formulation `walkRec`, compared with the real `walk` on every run (field EVR); the proof is a simulation
+  between that traversal and the graph builder (`kids_sim`, `comps_sim`, `rtc_forest`), T-wr for the text
+  leg and the builder's commutation with the C07 shorthands.  Graphs with rings (stage 3) remain on the
+  oracle and the correspondence.
+
+  Stage 1, proved for EVERY adjacency list (no well-formedness needed) and every accepted string:
     * the traversal's events are spelled by the writer without a panic, the reader accepts that text, and
       reads back exactly the traversal's events (up to the C07 shorthands) — no atom, bond, charge or ring
       closure is lost, duplicated, retargeted or relabelled between the traversal's event stream and the
@@ -19,6 +29,8 @@
 -/
 import Purr.Props.C09
 import Purr.Props.C10
+import Purr.Lemmas.RtcCor
+import Purr.Lemmas.NormL
 namespace Purr.C01
 open Purr Purr.Spec
 
@@ -54,6 +66,63 @@ theorem string_rewrite_same_events (s : Str) (es : List Event) (h : read s = (es
 theorem roundtrip_result_wellformed (g : Graph) (g' : Graph) (t : Str)
     (hr : build? (read t).1 = some (.ok g')) : WellFormed g' :=
   C10.build_ok_wellformed _ (C08.reader_conformant t) g' hr
+
+/-- kinds are compared up to configuration and the H0 shorthand: normalising changes nothing of that -/
+theorem constitution_norm (k : AtomKind) : constitution k.norm = constitution k := by
+  cases k with
+  | bracket b =>
+    obtain ⟨iso, sym, cfg, h, q, m⟩ := b
+    simp only [AtomKind.norm, Bracket.norm, constitution]
+    cases h with
+    | none => rfl
+    | some hh => by_cases h0 : hh.val = 0 <;> simp [hnorm, h0]
+  | _ => rfl
+
+theorem iso_normAtoms {g g' : Graph} {π : Nat → Nat} (h : Iso g g' π) : Iso g (g'.map normAtom) π := by
+  obtain ⟨h1, h2, h3, h4⟩ := h
+  refine ⟨by simp [h1], h2, h3, ?_⟩
+  intro a atom ha
+  obtain ⟨atom', ha', hk, hb⟩ := h4 a atom ha
+  refine ⟨normAtom atom', by rw [List.getElem?_map, ha']; rfl, ?_, hb⟩
+  simp only [normAtom]; rw [constitution_norm]; exact hk
+
+/-- STAGE 2, detailed form (used by C03 and C12): the graph read back from the written text is the
+    traversal-order relabelling `g1` of the original (each arrival bond first, `@`/`@@` marks adjusted),
+    with the C07 shorthands applied to the atom kinds. -/
+theorem roundtrip_forest_relabelled (g : Graph) (hw : WellFormed g) (es : List (Event × Nat)) (ord : List Nat)
+    (h : walkRecL g = some (es, ord)) (hj : ∀ e ∈ es, isJoin e = false) (hne : es ≠ []) :
+    ∃ t g1, write? (es.map (·.1)) = some t ∧ (read t).2 = .ok ∧ build? (read t).1 = some (.ok (g1.map normAtom)) ∧
+      Relabelled g ord g1 ∧ ord.Nodup ∧ (∀ x, x < g.length ↔ x ∈ ord) := by
+  obtain ⟨g1, hb, hrel, hnd, hcov⟩ := rtc_forest g hw es ord h hj
+  have hconf : Conformant (es.map (·.1)) := conformant_of_walkRec g es ord h
+  have hne' : es.map (·.1) ≠ [] := by simpa using hne
+  obtain ⟨t, hw', hr⟩ := C09.read_write _ (conformantNE_of_nonempty hconf hne')
+  refine ⟨t, g1, hw', by rw [hr], ?_, hrel, hnd, hcov⟩
+  rw [hr]
+  simp only
+  rw [build_norm, hb]
+  rfl
+
+/-- STAGE 2.  The complete round trip of a forest: the written text is accepted by the reader and builds a
+    graph isomorphic to the original, atom `x` going to its position in the visit order. -/
+theorem roundtrip_forest (g : Graph) (hw : WellFormed g) (es : List (Event × Nat)) (ord : List Nat)
+    (h : walkRecL g = some (es, ord)) (hj : ∀ e ∈ es, isJoin e = false) (hne : es ≠ []) :
+    ∃ t g', write? (es.map (·.1)) = some t ∧ (read t).2 = .ok ∧ build? (read t).1 = some (.ok g') ∧
+      Iso g g' (pos ord) := by
+  obtain ⟨t, g1, hw', hok, hb, hrel, hnd, hcov⟩ := roundtrip_forest_relabelled g hw es ord h hj hne
+  exact ⟨t, g1.map normAtom, hw', hok, hb, iso_normAtoms (hrel.iso hnd hcov)⟩
+
+/-! non-vacuity of stage 2: a two-component forest with a stereocentre entered through bond index 1,
+    numbered out of traversal order, meets every hypothesis of `roundtrip_forest` -/
+def exampleForest : Graph :=
+  [⟨.star, [⟨.elided, 2⟩]⟩, ⟨.star, [⟨.double, 2⟩]⟩,
+   ⟨.bracket ⟨none, .element .C, some .TH1, none, none, none⟩, [⟨.double, 1⟩, ⟨.elided, 0⟩, ⟨.single, 3⟩]⟩,
+   ⟨.star, [⟨.single, 2⟩]⟩, ⟨.star, []⟩]
+
+example : WellFormed exampleForest ∧ ∃ es ord, walkRecL exampleForest = some (es, ord) ∧
+    (∀ e ∈ es, isJoin e = false) ∧ es ≠ [] := by
+  refine ⟨(validate_none_iff _).mp (by decide), (walkRecL exampleForest).get!.1, (walkRecL exampleForest).get!.2,
+    by decide, by decide, by decide⟩
 
 /-- a well-formed adjacency list with an atom yields at least the root event, so the theorems above apply -/
 theorem wellformed_nonempty_events (g : Graph) (a : Atom) (rest : Graph) (hg : g = a :: rest) (hw : WellFormed g) :
